@@ -139,9 +139,10 @@ def aggregates():
 
 def plan(ctx):
   tasks = [('scalar', name) for name in scalar_builtins()]
-  n = 5 if ctx.thorough else 4
   for name in aggregates():
-    nsh = 8 if ctx.thorough else 2
+    n = 5 if ctx.thorough else 4
+    if ctx.thorough and name.startswith(('ArgMinK', 'ArgMaxK', 'Array')): n = 6     # the heap logic: every sequence of <=6 rows
+    nsh = (16 if n == 6 else 8) if ctx.thorough else 2
     for sh in range(nsh): tasks.append(('agg', name, n, sh, nsh))
   return tasks
 
@@ -263,7 +264,7 @@ def coverage(ctx, merged):
     rule='state = one argument tuple of one built-in / one input row sequence of one aggregate; transition = one evaluation through compiled SQL (table form and literal form); '
          'distinct_nontrivial = distinct (built-in, result) pairs observed',
     compiles=s.get('compiles', 0), scalar_builtins=len(scalar_builtins()), aggregates=len(aggregates()),
-    bounds=dict(ints=INTS, floats=FLOATS, strings=STRS, lists='<=3 elements incl. empty', aggregate_rows=5 if ctx.thorough else 4, aggregate_alphabet='{a,b,c}x{1,2,3}', K=[1, 2, 3]), cap_hit=False)
+    bounds=dict(ints=INTS, floats=FLOATS, strings=STRS, lists='<=3 elements incl. empty', aggregate_rows='5, K-best aggregates 6' if ctx.thorough else 4, aggregate_alphabet='{a,b,c}x{1,2,3}', K=[1, 2, 3]), cap_hit=False)
 
 
 def replay(ctx, case):
